@@ -17,16 +17,16 @@ func (Prop) Budget(tier string) int {
 	if tier == "thorough" {
 		return 12000000
 	}
-	return 400000
+	return 250000
 }
 
 // Describe implements core.Property.
 func (Prop) Describe() core.Description {
 	return core.Description{
 		Level: "fault_enumeration",
-		Rule: "enumerated part (walked completely, every tier): 6 helpers x {V, *P} x 8 behaviours of the type under test x 4 Before x 4 After hook behaviours x 21 predicate kinds (met, unmet, near-miss, one-byte-longer and empty variants) x 3 constraints x 4 positions {only, first, middle, last of 3} (+ TypeHelper variants, + types lacking the interface under both FailNow environments); " +
+		Rule: "enumerated part (walked completely, every tier): 6 helpers x {V, *P} x 8 behaviours of the type under test x 4 Before x 4 After hook behaviours x 23 predicate kinds (met, unmet, near-miss, one-byte-longer, empty and two caller-written silent variants) x 3 constraints x 4 positions {only, first, middle, last of 3} (+ TypeHelper variants, + types lacking the interface under both FailNow environments); " +
 			"seeded part: lists of 0-12 cases with tape-chosen combinations, several faults per list, 5 type shapes, both TestingT environments, optional recording TypeHelper, singleton re-runs of every case. " +
-			"Oracle written from the statement: per case, failure reported <=> applicable and unsatisfied (L2), nothing for inapplicable cases (L4), no panic escapes (L3), type lacking the interface reported (L1). " +
+			"Oracle written from the statement: per case, failure reported <=> applicable and unsatisfied (L2), nothing for inapplicable cases (L4), no panic escapes (L3), type lacking the interface reported (L1), hooks receive their case's list position (L5). " +
 			"A list is non-trivial if a collaborator fault fired in an applicable case; distinct = distinct (helper, shape, position class, constraint, behaviour, hooks, predicate, verdict) tuples reached",
 		Assumptions: []string{
 			"a panic of the type under test counts as an error whose text begins 'panic: <value>\\n' (pinned by the library's own Test_MarshalText_Panic and CHANGELOG 0.8.0)",
